@@ -53,13 +53,19 @@ RoundTripIsIdentity ==
 \* re-fitting leaves no residue: the term of an array only mentions the state of the last fit before its production
 NoResidue ==
   \A k \in 1..NArr : LET h == st.arrs[k].hist[Len(st.arrs[k].hist)] IN
-     kind # "NS" => (IsFitted(h.fit) /\ \E i \in 1..Len(steps) : steps[i].op = "fit" /\ steps[i].data = h.fit.data /\ steps[i].opt = h.fit.opt)
+     kind # "NS" => /\ IsFitted(h.fit) /\ \E i \in 1..Len(steps) : steps[i].op = "fit" /\ steps[i].data = h.fit.data /\ steps[i].opt = h.fit.opt
+                    /\ h.fit.r = 100 \/ \E i \in 1..Len(steps) : steps[i].op = "support" /\ steps[i].opt = h.fit.r
 \* rotations form a group of exact matrices: every normal form is a rotation; inverse is the transpose
 RotationGroup ==
   kind = "ROT" => \A k \in 1..NArr :
      LET m == NF(kind, st.arrs[k].base, st.arrs[k].hist)[1] IN
        /\ IsRotation(m)
        /\ MatMul(MatT(m), m) = MatId(m.dim)
+\* the support coefficient only exists for the Hermite anamorphosis and is the one of the last support step
+SupportState ==
+  /\ kind # "AH" => st.obj.r = 100 /\ st.cpy.r = 100
+  /\ LET S == {i \in 1..Len(steps) : steps[i].op = "support"} IN
+       st.obj.r = IF S = {} THEN 100 ELSE steps[CHOOSE i \in S : \A j \in S : j <= i].opt
 SameIsSymmetricOnKeys ==
   \A k \in 1..NArr : \A r \in SameAs(kind, st, k) : RefKey(kind, st, r) = RefKey(kind, st, ARef(k))
 =============================================================================
